@@ -296,7 +296,7 @@ theorem feed_mrend (hnorm : ∀ s n, lookupN cfg s n = lookupN cfg s (norm n)) (
     obtain ⟨adv1, a1, hi1, hn1, hnow1, heff1⟩ := handle_eff cfg text hsum m m1 (.ch c) b1 hne e1
     rw [lookup_ch, hnorm] at hi1
     obtain ⟨segs1, hinv1, hnowb1, _⟩ := handle_char_inv cfg advSt wk text hT m m1 c rest b1 segs hinv hc e1
-    simp only [cellOK, hInfo, hi1] at hcell
+    simp only [cellOK, hInfo, lookupF_eq, hi1] at hcell
     cases b1 with
     | true =>
       simp only [Except.ok.injEq] at h
